@@ -440,9 +440,14 @@ def run(ctx):
     rob = ctx.rule('R-STRAND.one-batch', '(shared with C07) Strand::Call detaches one batch per invocation: jobs that '
                    'arrive later go through a new submission to the underlying executor, where a stop is noticed and '
                    'they are Dropped', minimum=1)
+    rrf = ctx.rule('R-RUNFORM', 'Run(e, f) / RunShared(e, f) submit their first step to the executor argument itself, once, '
+                   'on every path', minimum=4)
     from rules import lib_list, lib_attach
     for cfg, fb in sorted(fbs.items()):
         ctx.guard(lambda: lib_attach.check_attach_forms(ctx, fb, raf, None, 17))
+        from rules import lib_runform
+        if (ctx.guard(lambda: lib_runform.check_run_forms(ctx, fb, rrf)) or 0) < 2:
+            ctx.guard(lambda: ctx.broken('R-RUNFORM: detail::Run / RunShared not instantiated in %s' % cfg))
         from rules import c07
         if (ctx.guard(lambda: c07.check_one_batch(ctx, fb, rob)) or 0) < 1:
             ctx.guard(lambda: ctx.broken('R-STRAND.one-batch: Strand::Call not found'))
